@@ -148,16 +148,17 @@ theorem factory_called_once_compiled (cfg : UCfg) (fc : FCfg) (g : Compile.Graph
     simpa [List.map_map, Function.comp_def] using this
 
 /-- **factory_call_value_compiled** (value level): for a compiled graph accepted by the checker, under the two further decidable
-premises `rootStable fg` (the fuel of `Factory.root` suffices) and `castsPlain g` (a `Cast` of a tracer yields a tracer), both
+premises `rootStable fg` (the fuel of `Factory.root` suffices) and `castsPlain g fg t` (a `Cast` of a tracer denoting input `t`
+yields a tracer), both
 evaluated by the harness on every captured graph: for every factory position `p` (graph input `t`), the event trace of the
 emitted program contains **exactly one call event whose function term is the object passed as input `t`** (`inAtom t`) — with one
 positional argument and exactly the keyword names the model passes.  No other call event of the program, whatever node produced
 it, calls that object. -/
 theorem factory_call_value_compiled (cfg : UCfg) (fc : FCfg) (g : Compile.Graph) (aux : List TAux) (fg : Factory.Graph)
     (comp : Compiled) (d : Descr) (hwf : g.WF = true) (hsup : Supported g = true) (hfg : toFactory g aux = some fg)
-    (hstable : rootStable fg = true) (hplain : castsPlain g = true)
+    (hstable : rootStable fg = true)
     (hc : compile cfg fc g = .ok comp) (hok : factoryOK fg d = true)
-    (p : Nat) (ad : ArgD) (sig : Sig) (t : Nat)
+    (p : Nat) (ad : ArgD) (sig : Sig) (t : Nat) (hplain : castsPlain g fg t = true)
     (hd : d.args[p]? = some ad) (hf : ad.factory = some sig) (ht : fg.inputs[p]? = some t) :
     ∃ as ks,
       (execBlock { env := unbound } comp.st.program).trace.filter (trackedCall (isInAtom t)) =
@@ -194,7 +195,7 @@ theorem factory_call_value_compiled (cfg : UCfg) (fc : FCfg) (g : Compile.Graph)
     not_allowInline_of_callsInput g aux fg hfg hfwf t htin (.var f0) f0 (by simp [toV]) hroot
   obtain ⟨_, _, ho, _, _⟩ := compile_parts cfg fc g comp hc
   obtain ⟨rr, hr, htr, _⟩ := compile_correct_wf cfg fc g comp hwf hc
-  have T := track_input g aux fg hwf hsup hfg hfwf hstable hplain t htin i hcu fn args kwargs deps out hnode
+  have T := track_input g aux fg hwf hsup hfg hfwf hstable t hplain htin i hcu fn args kwargs deps out hnode
   obtain ⟨f, as, ks, hfl, hqf, hlen, hnames⟩ := tracked_call_once (isInAtom_qok t) T cfg.unaryParens comp.order rr hr
     (visitOrder_nodup g hwf comp.order ho) (fun k' hk' => visitOrder_enters g aux fg hwf hsup hfg comp.order ho k' hk')
     i f0 args' kwargs' deps' o ha hroot hnot hivis (by
@@ -280,7 +281,7 @@ example : (match compile fixedCfg ⟨true, true, true⟩ realCGraph, toFactory r
 /-- Value level on the captured graph: the further premises hold, and the compiled program has exactly one call event whose
 function is the object of input 1: `in1((3,), name="add")`. -/
 example : (match toFactory realCGraph realAux with
-    | some fg => rootStable fg && castsPlain realCGraph
+    | some fg => rootStable fg && castsPlain realCGraph fg 1
     | none => false) = true := by decide +kernel
 
 example : (match compile fixedCfg ⟨true, true, true⟩ realCGraph with
